@@ -418,6 +418,8 @@ fn main()
 	emit!(&[0x01, 0x20, 0x40, 0xBF, 0x70, 0x47], &mut out);
 	// audit: inputs no generated case reaches — the empty file (header line only), a single byte, and a binary far longer
 	// than the 400-byte limit of the generators (600 NOPs, a BL back to the first instruction, BX LR: 1206 bytes)
+	// a branch to the instruction right behind it (B stops the linear decode, the target must still be queued), also B<c> / BL
+	for c in ["ffe701207047", "ffd001207047", "00f000f801207047", "ffe7ffe7ffe77047", "00bfffe77047", "ffe700bffce7"] { emit!(&parse_hex_bytes(c), &mut out); }
 	emit!(&[], &mut out);
 	emit!(&[0x00], &mut out);
 	{
